@@ -29,6 +29,7 @@ type Query struct {
 	Agreed  []string
 	Cx      *Ctx
 	Vars    map[string]*Term // interesting values for replay (params, loop vars)
+	Unfold  []string         // clause-level additions to the unit's unfold list
 }
 
 type Obligation struct {
@@ -39,6 +40,7 @@ type Obligation struct {
 	Src     string
 	Queries []*Query
 	Known   bool
+	Unfold  []string
 }
 
 // Addr is an executor-level lvalue.
@@ -85,6 +87,8 @@ type Path struct {
 	trace   []int
 	depth   int
 	ghosts  map[string]*Term
+	loopEntry map[int]*State // per loop ordinal: the state when the loop was entered
+	localFacts map[int][]*Term // per loop ordinal: assumptions to forget when the loop is left
 }
 
 func (p *Path) ghost(name string, t *Term) { p.ghosts[name] = t }
@@ -96,6 +100,18 @@ func (p *Path) clone() *Path {
 		knownNN: map[string]bool{}, trace: append([]int(nil), p.trace...), depth: p.depth, ghosts: map[string]*Term{}}
 	for k, v := range p.ghosts {
 		n.ghosts[k] = v
+	}
+	if p.localFacts != nil {
+		n.localFacts = map[int][]*Term{}
+		for k, v := range p.localFacts {
+			n.localFacts[k] = v
+		}
+	}
+	if p.loopEntry != nil {
+		n.loopEntry = map[int]*State{}
+		for k, v := range p.loopEntry {
+			n.loopEntry[k] = v
+		}
 	}
 	for k, v := range p.vals {
 		n.vals[k] = v
@@ -163,6 +179,7 @@ type Unit struct {
 	pathDead bool
 	trusted map[string]bool
 	globalFacts []*Term
+	baseAssumes int // number of leading path assumptions that come from the precondition
 	paths int
 	loops map[*ssa.BasicBlock]int // header -> ordinal
 	loopBody map[*ssa.BasicBlock]map[*ssa.BasicBlock]bool
@@ -222,7 +239,7 @@ func (u *Unit) check(p *Path, o *Obligation, goal *Term) {
 		o.Queries = append(o.Queries, &Query{Ob: o, Goal: goal, Result: "unsat", Solver: "syntactic", Path: pathDesc(p), Cx: u.cx})
 		return
 	}
-	q := &Query{Ob: o, Assumes: append([]*Term(nil), p.assumes...), Goal: goal, Path: pathDesc(p), Cx: u.cx, Vars: u.replayVars(p)}
+	q := &Query{Ob: o, Assumes: append([]*Term(nil), p.assumes...), Goal: goal, Path: pathDesc(p), Cx: u.cx, Vars: u.replayVars(p), Unfold: o.Unfold}
 	o.Queries = append(o.Queries, q)
 }
 
@@ -480,6 +497,51 @@ func (u *Unit) execFrom(p *Path, b *ssa.BasicBlock, pred *ssa.BasicBlock, start 
 			u.fail("more than %d path segments", u.v.maxPaths)
 		}
 		p.trace = append(p.trace, b.Index)
+		// leaving a loop: exit assertions
+		if pred != nil {
+			for _, h := range sortedBlocks(u.loops) {
+				ord := u.loops[h]
+				if !(u.loopBody[h][pred] && !u.loopBody[h][b]) {
+					continue
+				}
+				var env *Env
+				for _, c := range u.bc.own.Invs[ord] {
+					if !c.AtExit {
+						continue
+					}
+					if env == nil {
+						env = u.invEnv(p, h)
+					}
+					g, err := env.EvalBool(c.Expr)
+					if err != nil {
+						u.fail("loop %d exit assertion %s: %v", ord, c.Label, err)
+					}
+					o := u.ob(fmt.Sprintf("inv%d.%s.exit", ord, c.Label), "inv", c.Props, c.Src)
+					o.Unfold = c.Unfold
+					u.check(p, o, g)
+					p.assume(g)
+				}
+			}
+		}
+		// leaving a loop: forget its local invariants
+		if pred != nil && len(p.localFacts) > 0 {
+			for h, ord := range u.loops {
+				if facts := p.localFacts[ord]; len(facts) > 0 && u.loopBody[h][pred] && !u.loopBody[h][b] {
+					drop := map[*Term]bool{}
+					for _, f := range facts {
+						drop[f] = true
+					}
+					var kept []*Term
+					for _, a := range p.assumes {
+						if !drop[a] {
+							kept = append(kept, a)
+						}
+					}
+					p.assumes = kept
+					delete(p.localFacts, ord)
+				}
+			}
+		}
 		if ord, isHead := u.loops[b]; isHead {
 			back := pred != nil && b.Dominates(pred)
 			if !u.atLoopHead(p, b, pred, ord, back) {
@@ -945,7 +1007,11 @@ func (u *Unit) lookup(p *Path, x *ssa.Lookup) {
 }
 
 // enumAxioms: ks enumerates exactly the keys of mv, without repetition.
-func (u *Unit) enumAxioms(mv *Term, ks, idx, n *Term) []*Term {
+func (u *Unit) enumAxioms(mv *Term, ks, idx, n *Term) []*Term { return u.enumAxiomsP(mv, ks, idx, n, true) }
+
+// enumAxiomsP: eager=false omits the trigger on domain membership (used for len(m), where the
+// enumeration only witnesses the cardinality), which otherwise feeds other enumerations' triggers.
+func (u *Unit) enumAxiomsP(mv *Term, ks, idx, n *Term, eager bool) []*Term {
 	enc := u.v.enc
 	ksK, _, _ := arrParts(idx.Sort)
 	u.cx.n++
@@ -954,8 +1020,12 @@ func (u *Unit) enumAxioms(mv *Term, ks, idx, n *Term) []*Term {
 	dom := enc.MapDom(mv)
 	a1 := Forall([]*Term{i}, Imp(And(Ge(i, IntLit(0)), Lt(i, n)),
 		And(Select(dom, Select(ks, i)), Eq(Select(idx, Select(ks, i)), i))), []*Term{Select(ks, i)})
+	pats := [][]*Term{{Select(idx, k)}}
+	if eager {
+		pats = append(pats, []*Term{Select(dom, k)})
+	}
 	a2 := Forall([]*Term{k}, Imp(Select(dom, k),
-		And(Ge(Select(idx, k), IntLit(0)), Lt(Select(idx, k), n), Eq(Select(ks, Select(idx, k)), k))), []*Term{Select(idx, k)}, []*Term{Select(dom, k)})
+		And(Ge(Select(idx, k), IntLit(0)), Lt(Select(idx, k), n), Eq(Select(ks, Select(idx, k)), k))), pats...)
 	return []*Term{Eq(n, enc.MapCard(mv)), Ge(n, IntLit(0)), a1, a2}
 }
 
